@@ -301,7 +301,7 @@ def run(ctx):
                 ctx.ob("C05.ranges", "%s::%s_range" % (name, d), False, "%s carries %s but does not override %s_range (header range would "
                        "stay [0, 0])" % (name, d, d), key="C05.ranges|%s|%s" % (name, d))
                 continue
-            ps, _ = util.run_fn(F, f, inline=lambda g, t: "_range" not in g["def"] or g["def"] == f["def"], summarise_pure=False)
+            ps, _ = util.run_fn(F, f, inline=lambda g, t: not g["def"].startswith("record::bbox::GenericBBox"), summarise_pure=False)
             good = bool(ps)
             desc = []
             for p in ps:
@@ -323,8 +323,9 @@ def run(ctx):
                         good = False
                         desc.append(absint.term_str(r)[:60])
                 else:
-                    calls = [e for e in p.eff if e[0] == 'call' and e[1].endswith("::%s_range" % d)]
-                    if len(calls) == 1 and r == calls[0][-1] and absint.term_str(calls[0][3][0]).endswith('.bbox'):
+                    calls = [e for e in p.eff if e[0] == 'call' and e[1].startswith("record::bbox::GenericBBox") and e[1].endswith("::%s_range" % d)]
+                    recv = absint.term_str(calls[0][3][0]) if calls else ''
+                    if len(calls) == 1 and r == calls[0][-1] and recv.startswith('&*arg1.') and recv.count('.') == 1:
                         desc.append("bbox.%s_range()" % d)
                     else:
                         good = False
